@@ -1,6 +1,119 @@
-(* C15 — property theorems (temporary minimal file while the package is being completed). *)
-From Tetl Require Import Lib.Base C15.Types C15.Model C15.Spec C15.ProofsTypes.
+(* C15 — type traits, concepts, numeric_limits (and ratio, Properties_ratio.v) agree with the
+   language and std.  Property theorems only: each is closed by [exact] of a lemma proved in
+   ProofsTypes / ProofsCv / ProofsCat / ProofsTrans / ProofsSummary / ProofsLimits.v.
 
-Theorem C15_is_same_decides_identity : forall a b, is_same_m a b = true <-> a = b.
-Proof. exact cty_eqb_eq. Qed.
-Print Assumptions C15_is_same_decides_identity.
+   Vocabulary
+     cty, wf          the universe of C++ types (Types.v): void, nullptr_t, the 19 arithmetic types,
+                      enumerations, T*, T&, T&&, T[N], T[], function types with cv/ref/noexcept/
+                      variadic, pointers to members, classes, unions, cv-wrappers — arbitrarily
+                      nested; [wf] is well-formedness ([dcl.ref], [dcl.ptr], [dcl.array], [dcl.fct]).
+     X_m              Model.v: how the etl header computes trait X (partial specialisation patterns,
+                      SFINAE on forming T&/T&&/T*, is_same against type lists, compositions, or a
+                      compiler intrinsic, selected per compiler configuration k : cfg)
+     std_X            Spec.v: what [meta], [basic.types], [conv.*] define
+   Every theorem below quantifies over ALL well-formed types (induction over the type syntax where
+   the trait recurses through arrays / cv), not over the finite zoo the compile-time tie samples. *)
+From Coq Require Import NArith.
+From Tetl Require Import Lib.Base C15.Types C15.Model C15.ModelNum C15.Spec C15.SpecNum C15.ProofsTypes
+  C15.ProofsCv C15.ProofsCat C15.ProofsTrans C15.ProofsSummary C15.ProofsLimits.
+Local Open Scope Z_scope.
+
+(* [meta.unary.cat]: the 14 primary category traits, both compiler configurations *)
+Theorem C15_primary_categories : forall k t, wf t = true -> primary_categories_agree k t.
+Proof. exact primary_categories. Qed.
+Print Assumptions C15_primary_categories.
+
+(* exactly one primary category holds for every type, and cv-qualifying a type does not change it *)
+Theorem C15_primary_categories_partition : forall k t, wf t = true ->
+  count_true (primary_m k t) = 1%nat
+  /\ forall c v, primary_m k (qual c v t) = primary_m k t.
+Proof. intros k t H; split; [exact (primary_partition k t H) | intros c v; exact (category_cv_invariant k t c v H)]. Qed.
+Print Assumptions C15_primary_categories_partition.
+
+(* [meta.unary.comp]: is_reference, is_arithmetic, is_fundamental, is_object, is_scalar, is_compound,
+   is_member_pointer *)
+Theorem C15_composite_categories : forall k t, wf t = true -> composite_categories_agree k t.
+Proof. exact composite_categories. Qed.
+Print Assumptions C15_composite_categories.
+
+(* [meta.unary.prop], [meta.unary.prop.query]: is_const, is_volatile, is_signed, is_unsigned,
+   is_(un)bounded_array, rank, extent<T, I> for every I, is_scoped_enum, is_builtin_*_integer *)
+Theorem C15_type_properties : forall k t, wf t = true -> type_properties_agree k t.
+Proof. exact type_properties. Qed.
+Print Assumptions C15_type_properties.
+
+(* [meta.trans.cv]: remove_const/volatile/cv, add_const/volatile/cv *)
+Theorem C15_cv_transformations : forall t, wf t = true -> cv_transformations_agree t.
+Proof. exact cv_transformations. Qed.
+Print Assumptions C15_cv_transformations.
+
+(* [meta.trans.ref], [meta.trans.ptr], [meta.trans.arr], decay, remove_cvref, type_identity *)
+Theorem C15_compound_transformations : forall t, wf t = true -> compound_transformations_agree t.
+Proof. exact compound_transformations. Qed.
+Print Assumptions C15_compound_transformations.
+
+(* [meta.trans.sign] make_signed / make_unsigned (incl. when they have no member type), underlying_type *)
+Theorem C15_sign_transformations : forall k t, wf t = true -> sign_transformations_agree k t.
+Proof. exact sign_transformations. Qed.
+Print Assumptions C15_sign_transformations.
+
+(* common_type<T1, T2> for every pair of well-formed types (None on both sides = outside the
+   specification's scope: class types, distinct non-arithmetic types) *)
+Theorem C15_common_type : forall t1 t2, wf t1 = true -> wf t2 = true ->
+  common_type_m t1 t2 = std_common_type t1 t2.
+Proof. exact common_type_m_spec. Qed.
+Print Assumptions C15_common_type.
+
+(* is_same / same_as decide identity of types (no hypothesis); conditional; meta::contains *)
+Theorem C15_type_relations : forall t u,
+  ((is_same_m t u = true <-> t = u) /\ (same_as_m t u = true <-> t = u)
+   /\ (forall b, conditional_m b t u = std_conditional b t u))
+  /\ forall l, contains_m t l = true <-> In t l.
+Proof. intros t u; split; [exact (binary_relations t u) | intros l; exact (contains_m_spec t l)]. Qed.
+Print Assumptions C15_type_relations.
+
+(* the concepts integral, floating_point, signed_integral, unsigned_integral *)
+Theorem C15_concepts : forall k t, wf t = true -> concepts_agree k t.
+Proof. exact concepts. Qed.
+Print Assumptions C15_concepts.
+
+(* the language-level cv machinery the traits are specified with maps well-formed types to
+   well-formed types *)
+Theorem C15_cv_preserves_wf : forall t c v, wf t = true ->
+  wf (qual c v t) = true /\ wf (unqual c v t) = true.
+Proof. intros t c v H; split; [exact (wf_qual t c v H) | exact (wf_unqual t c v H)]. Qed.
+Print Assumptions C15_cv_preserves_wf.
+
+(* smallest_size_t<N> (etl extension) for every 64-bit N: the chosen type holds N, and the next
+   smaller unsigned type could not hold N + 1 *)
+Theorem C15_smallest_size_t : forall n, 0 <= n < 2 ^ 64 ->
+  holds (smallest_size_t_m n) n = true
+  /\ (smallest_size_t_m n = AUShort -> holds AUChar (n + 1) = false)
+  /\ (smallest_size_t_m n = AUInt -> holds AUShort (n + 1) = false)
+  /\ (smallest_size_t_m n = AULong -> holds AUInt (n + 1) = false)
+  /\ (smallest_size_t_m n = AULLong -> holds AULong (n + 1) = false).
+Proof. exact smallest_size_t_m_spec. Qed.
+Print Assumptions C15_smallest_size_t.
+
+(* numeric_limits: every member (32) of every arithmetic type (19; finite domain, kernel-evaluated
+   sweep) equals the value [numeric.limits.members] defines from the representation parameters;
+   the only member without a specified value is `traps`; and the decimal digit counts of the
+   specification are floor(log10 .) *)
+Theorem C15_numeric_limits :
+  (forall a m v, limits_spec a m = Some v -> limits_m a m = v)
+  /\ (forall a m, m <> Ltraps -> limits_spec a m <> None)
+  /\ (forall x, 1 <= x < 10 ^ 6000 -> is_flog10 x (flog10 x)).
+Proof. exact (conj limits_m_spec (conj limits_spec_defined flog10_spec)). Qed.
+Print Assumptions C15_numeric_limits.
+
+(* the hypotheses are satisfiable by deeply nested types and the traits are non-trivial on them *)
+Example C15_nonvacuous :
+  wf nv_t1 = true /\ wf nv_t2 = true /\ wf nv_t3 = true
+  /\ decay_m nv_t1 = Ptr (Cv true false (Ptr (Fn (Arith AInt) [Arith AChar; Ptr (Arith ADouble)] false false RQnone true false)))
+  /\ is_const_m nv_t2 = true /\ rank_m nv_t2 = 3%N /\ extent_m nv_t2 2 = 5%N
+  /\ remove_cv_m nv_t2 = Arr (Arr (Arr (Arith AULong) (Some 5%N)) (Some 2%N)) None
+  /\ is_member_function_pointer_m GCC12 nv_t3 = true /\ is_member_object_pointer_m GCC12 nv_t3 = false
+  /\ make_unsigned_m GCC12 (Cv true false (Arith AWChar)) = Some (Cv true false (Arith AUInt))
+  /\ common_type_m (Cv true false (Arith AChar)) (LRef (Arith AULong)) = Some (Arith AULong)
+  /\ wf (LRef (LRef (Arith AInt))) = false /\ wf (Ptr (Fn Void [] true false RQnone false false)) = false.
+Proof. exact nonvacuous. Qed.
